@@ -89,7 +89,7 @@ def _worker_chunk(args):
            "sim_s": 0.0, "notes": {}, "violations": [], "harness": [],
            "samples": [], "nt_digests": [], "extra": {}}
     dbg = os.environ.get("VERIF_DEBUG_SEEDS")
-    for seed, opts in zip(seeds, opts_list):
+    for idx, (seed, opts) in enumerate(zip(seeds, opts_list)):
         if dbg:
             with open("%s.%d" % (dbg, os.getpid()), "a") as f:
                 f.write("%d %r\n" % (seed, opts))
@@ -126,7 +126,8 @@ def _worker_chunk(args):
         v = res.get("violation")
         if v:
             out["violations"].append(
-                (seed, opts, v, res["tape"].decisions, res["digest"]))
+                (seed, opts, v, res["tape"].decisions, res["digest"],
+                 [[sd, op] for sd, op in zip(seeds[:idx], opts_list[:idx])]))
     faulthandler.cancel_dump_traceback_later()
     out["extra"] = {k: (sorted(v) if isinstance(v, set) else v)
                     for k, v in out["extra"].items()}
@@ -199,18 +200,25 @@ def minimise(check, seed, opts, decisions, key, budget_s=60.0):
 
 
 def write_replay(prop, seed, opts, decisions, violation, digest, trace=None,
-                 name=None):
+                 name=None, history=None):
     os.makedirs(REPLAYS, exist_ok=True)
     path = os.path.join(REPLAYS, name or "%s-%d.json" % (prop, seed))
+    data = {"property": prop, "seed": seed, "opts": opts,
+            "decisions": decisions, "violation": violation,
+            "digest": digest, "trace": trace}
+    if history:
+        # earlier cases that ran in the same process (each a pure function of
+        # its seed and opts): the violation needs state they leave behind
+        data["history"] = history
     with open(path, "w") as f:
-        json.dump({"property": prop, "seed": seed, "opts": opts,
-                   "decisions": decisions, "violation": violation,
-                   "digest": digest, "trace": trace}, f, indent=0)
+        json.dump(data, f, indent=0)
     return path
 
 
 def do_replay(check, path, quiet=False):
     data = json.load(open(path))
+    for sd, op in data.get("history") or []:
+        run_case(check, sd, op)
     res = run_case(check, data["seed"], data.get("opts"),
                    replay=data["decisions"], strict=True, trace=True)
     if "harness_error" in res:
@@ -451,7 +459,7 @@ def main(check, argv=None):
     rc = 0
     vio_paths = []
     if violations:
-        seed, opts, v, decisions, dg = violations[0]
+        seed, opts, v, decisions, dg, history = violations[0]
         if not args.no_minimise:
             mini, trials = minimise(check, seed, opts, decisions, v["key"],
                                     budget_s=45.0 if tier == "quick" else 180.0)
@@ -476,6 +484,34 @@ def main(check, argv=None):
         print("  key:    %s" % v2["key"])
         print("  clause: %s" % v2["clause"])
         print("  detail: %s" % v2["detail"])
+        if not confirmed and history:
+            # does it need what earlier cases left behind in the process
+            # (state shared between sessions)? replay the preceding cases of
+            # the worker's chunk first, then shrink that history
+            def try_hist(h, decs):
+                pth = write_replay(prop, seed, opts, decs, v, dg, None,
+                                   name="%s-%d-h.json" % (prop, seed),
+                                   history=h)
+                c2 = subprocess.run([sys.executable, sys.argv[0], "--replay",
+                                     pth, "--quiet"], capture_output=True,
+                                    text=True, timeout=900)
+                return ("VIOLATION property=%s" % prop) in c2.stdout and \
+                    ("violation %s " % v["key"]) in c2.stdout, pth
+            ok, hpath = try_hist(history, decisions)
+            if ok:
+                h = list(history)
+                for n in (1, 2, 4, 8):
+                    if n < len(h):
+                        ok2, _ = try_hist(h[-n:], decisions)
+                        if ok2:
+                            h = h[-n:]
+                            break
+                ok, hpath = try_hist(h, decisions)
+                print("  the violation needs state left behind by %d earlier "
+                      "case(s) run in the same process (cross-session state); "
+                      "the replay file lists them under 'history'" % len(h))
+                confirmed = ok
+                path = hpath
         if not confirmed:
             print("HARNESS-ERROR: minimised replay did not reproduce in a "
                   "fresh interpreter:\n%s\n%s" % (cp.stdout[-2000:],
